@@ -985,7 +985,8 @@ fn check_globals(m: &Model, ind: &EnergyIndicators, origin: &str, obs: &mut Obs)
         obs.count("with_global_ventilation");
         // and it is 3.6 q / V of the habitable net volume inside the envelope
         if let Some(want) = r.global_vent() {
-            if want.is_finite() && r.vol_inh_net() > 1.0 && !close(reported, want, 1e-4, 1e-5 + want * 0.0056 / r.vol_inh_net()) {
+            // V is a sum of per-space volumes, each a 2-decimal figure (and a sum on x.xx5 may round either way)
+            if want.is_finite() && r.vol_inh_net() > 1.0 && !close(reported, want, 1e-4, 1e-5 + want * (0.0101 + 0.0051 * m.spaces.len() as f64) / r.vol_inh_net()) {
                 obs.violation("globals:ventilation-rate-value", format!("{}: global ventilation rate {} but 3.6 q / V = {:.6}", origin, reported, want), ctx());
             }
         }
